@@ -376,6 +376,8 @@ def run_single(world: dict, rid: int = 0, install_seams: bool = True) -> dict:
     log = _LOGS.setdefault(rid, [])
     _TLS.rid = rid
     _TLS.perm = bool(world.get("perm_proxy", True) and world["loop"] == "data")
+    if rid:
+        jax.effects_barrier()  # events of an interrupted earlier attempt must not land in this log
     log.clear()
     caller_key = np.asarray(_key_data(key)).tolist()
     exception = None
